@@ -5,7 +5,12 @@ import tables
 
 
 def _own(cls):
-    return sorted(n for n, v in vars(cls).items() if callable(v) or isinstance(v, (classmethod, staticmethod, property)))
+    # public names and special methods only: a private helper (`_name`) that a refactoring adds to or removes from a class is
+    # not part of what the models are written against (which PUBLIC / special methods a class overrides itself and which it
+    # gets from the collections.abc mix-ins)
+    return sorted(n for n, v in vars(cls).items()
+                  if (callable(v) or isinstance(v, (classmethod, staticmethod, property)))
+                  and (not n.startswith('_') or (n.startswith('__') and n.endswith('__'))))
 
 
 @tables.generator
